@@ -1,6 +1,6 @@
 (* C02 — decoding is total: arbitrary bytes give a value or an error, never a panic.
    Statements only. *)
-From Zvt Require Import Base Length Cp437 Encoding EncodingProps Codec Lookup CodecTotal CodecSize GenCheck DateTimeProps Legacy.
+From Zvt Require Import Base Length Cp437 Encoding EncodingProps Codec Lookup CodecTotal CodecSize GenCheck DateTimeProps LegacyCodec.
 From Zvt.gen Require Import Layouts Tables.
 Open Scope N_scope.
 
